@@ -136,7 +136,20 @@ def evaluate(ctx, jobs):
     # real calls + model lines
     lines = []
     results = []
-    for variant, tkind, a1, nd1, a2, nd2, prm, extra in jobs:
+    for jn, (variant, tkind, a1, nd1, a2, nd2, prm, extra) in enumerate(jobs):
+        if jn % 5 == 0 and len(a1) >= 4:
+            # memory layout: a reversed view, a column of a 2-d block and a decimated view are the same series as their copies
+            block = np.zeros((len(a1), 3))
+            block[:, 1] = a1
+            big = np.zeros(2 * len(a1) + 1)
+            big[::2][: len(a1)] = a1
+            for name, view in (("reversed view", a1[::-1]), ("column of a (time, pixel) block", block[:, 1]), ("every second cell of a buffer", big[::2][: len(a1)])):
+                rv, rc = smooth.call(variant, view, nd1, prm), smooth.call(variant, np.ascontiguousarray(view), nd1, prm)
+                ctx.count("strided input")
+                if not np.array_equal(rv[0], rc[0]) or not (rv[1] == rc[1] or (rv[1] != rv[1] and rc[1] != rc[1])):
+                    ctx.fail(variant, dict(variant=variant, y=[int(v) for v in np.asarray(view)], nodata=nd1, params=prm, layout=name),
+                             dict(band=rv[0].tolist(), lopt=rv[1]), dict(band=rc[0].tolist(), lopt=rc[1]), note="a non-contiguous view of a series must be smoothed like its contiguous copy")
+                    break
         r1 = smooth.call(variant, a1, nd1, prm)
         r2 = smooth.call(variant, a2, nd2, prm) if a2 is not None else None
         results.append((r1, r2))
